@@ -6,6 +6,7 @@ from ..loader import AnalysisError, attr_path, src, walk_no_nested_defs, norm_st
 from ..symx import SymX, classify, show, C, TRUE, FALSE, simp, is_const, mk_add, mk_mul, negate
 from ..guards import Evaluator, EvalUnsupported
 from . import C02, C08
+from ..pointsto import MUTATORS as _MUTATORS
 
 EXPLANATION = (
     "(1) the eight range checks of check_input, summarised symbolically and evaluated on representatives of every "
@@ -117,8 +118,8 @@ def r1_ranges(ctx, chk, rule="C15.1"):
                 if ty != want_type[dest]:
                     chk.violation(rule, g.where(c), "--%s is parsed with type=%s; the range check and the generator need %s" % (dest, ty, want_type[dest]), expected=want_type[dest],
                                   found=ty, construct="init_parser type of %s" % dest)
-                elif not ok:
-                    chk.undecided(rule, g.where(c), "--%s has no constant default" % dest)
+                elif not ok or not isinstance(dv, (int, float)) or isinstance(dv, bool):
+                    chk.undecided(rule, g.where(c), "--%s has no numeric constant default (%r): the value that reaches check_input is decided elsewhere" % (dest, dv if ok else "?"))
                 else:
                     vals = dict(base)
                     vals[dest] = dv
@@ -130,6 +131,58 @@ def r1_ranges(ctx, chk, rule="C15.1"):
     for p in want_type:
         if p not in seen:
             chk.violation(rule, g.where(), "no parser option --%s" % p, expected="--" + p, found="missing", construct="init_parser option %s" % p)
+
+
+def _falsy_replaced(ctx, f, term):
+    """The value handed to check_input went through `given or fallback` (or `given if given else fallback`): a given 0 / 0.0 never
+    reaches the validation - a width of 0 is silently replaced instead of refused, seed 0 becomes another seed.  Returns the
+    offending expression, or None.  Recognised: the boolean form directly in main, or in a helper of the generator module that
+    the value is computed by, with the command-line namespace (the helper's parameter) as the first operand."""
+    if any(t[0] == "boolval" and t[1] == "or" for t in C02._sub(term)):
+        return "`or` replaces a given 0 before it is validated"
+    for t in C02._sub(term):
+        if t[0] != "call" or not isinstance(t[1], str):
+            continue
+        for h in ctx.prog.all_funcs((GEN,)):
+            if h.name != t[1].split(".")[-1] or h.cls:
+                continue
+            tainted = set(h.params)
+            changed = True
+            while changed:
+                changed = False
+                for x in walk_no_nested_defs(h.node):
+                    if isinstance(x, ast.Assign) and len(x.targets) == 1 and isinstance(x.targets[0], ast.Name) and x.targets[0].id not in tainted \
+                            and isinstance(x.value, (ast.Attribute, ast.Call, ast.Subscript)) and _from_namespace(x.value, tainted):
+                        tainted.add(x.targets[0].id)
+                        changed = True
+            for x in walk_no_nested_defs(h.node):
+                first = None
+                if isinstance(x, ast.BoolOp) and isinstance(x.op, ast.Or):
+                    first = x.values[0]
+                elif isinstance(x, ast.IfExp) and ast.dump(x.test) == ast.dump(x.body):
+                    first = x.body
+                if first is None or isinstance(getattr(x, "parent", None), (ast.If, ast.While, ast.BoolOp, ast.UnaryOp)) and getattr(x.parent, "test", x.parent) is x:
+                    continue
+                if (isinstance(first, ast.Name) and first.id in tainted - set(h.params)) or (not isinstance(first, ast.Name) and _from_namespace(first, tainted)):
+                    return "%s line %d: `%s` replaces a given 0 before it is validated" % (h.short, x.lineno, src(x))
+    return None
+
+
+def _from_namespace(e, tainted):
+    """e reads one value out of a tainted namespace: ns.attr, getattr(ns, name), vars(ns)[name], ns[name], ns.get(name)"""
+    if isinstance(e, ast.Attribute):
+        return isinstance(e.value, ast.Name) and e.value.id in tainted
+    if isinstance(e, ast.Subscript):
+        v = e.value
+        if isinstance(v, ast.Call) and call_name(v) == "vars" and v.args:
+            v = v.args[0]
+        return isinstance(v, ast.Name) and v.id in tainted
+    if isinstance(e, ast.Call):
+        if call_name(e) == "getattr" and e.args and isinstance(e.args[0], ast.Name) and e.args[0].id in tainted:
+            return True
+        if isinstance(e.func, ast.Attribute) and e.func.attr == "get" and isinstance(e.func.value, ast.Name) and e.func.value.id in tainted:
+            return True
+    return False
 
 
 def r2_order(ctx, chk, rule="C15.2"):
@@ -164,14 +217,24 @@ def r2_order(ctx, chk, rule="C15.2"):
     else:
         args = call_t[0][2][2]
         kws = dict(call_t[0][2][3])
-        bad = []
+        bad, unknown = [], []
         for i, p in enumerate(g.params):
             a = args[i] if i < len(args) else kws.get(p)
-            if not (a is not None and a[0] == "attr" and a[2] == p):
-                bad.append((p, show(a) if a is not None else None))
+            if a is not None and a[0] == "attr" and a[2] == p:
+                continue
+            if a is None or (a[0] == "attr" and a[2] in g.params) or a[0] == "const":
+                bad.append((p, show(a) if a is not None else None))         # another parameter's value / a constant / nothing
+                continue
+            why = _falsy_replaced(ctx, f, a)
+            if why:
+                bad.append((p, show(a) + "  [" + why + "]"))
+            else:
+                unknown.append((p, show(a)))
         if bad:
             chk.violation(rule, f.where(), "check_input receives %s" % ", ".join("%s := %s" % b for b in bad), expected="each parameter := the parsed argument of the same name",
                           found=str(bad), construct="main check_input arguments")
+        elif unknown:
+            chk.undecided(rule, f.where(), "check_input receives %s: not the parsed argument itself, and how the value is derived from it is not recognised" % ", ".join("%s := %s" % b for b in unknown))
         else:
             chk.ok(rule, f.where(), "check_input(%s) receives the parsed argument of the same name in every position" % ", ".join(g.params))
     # the values that are generated with are the validated ones
@@ -180,9 +243,14 @@ def r2_order(ctx, chk, rule="C15.2"):
     h = ctx.func(GEN + "::gen_rnd_board")
     if gb:
         a = gb[0][2]
-        bad = [(p, show(a[i])) for i, p in enumerate(h.params) if i < len(a) and not (a[i][0] == "attr" and a[i][2] == p)]
+        ci_args = {p: (args[i] if i < len(args) else kws.get(p)) for i, p in enumerate(g.params)} if call_t else {}
+        bad = [(p, show(a[i])) for i, p in enumerate(h.params) if i < len(a) and not (a[i][0] == "attr" and a[i][2] == p) and a[i] != ci_args.get(p, a[i])]
+        bad += [(p, show(a[i])) for i, p in enumerate(h.params) if i < len(a) and not (a[i][0] == "attr" and a[i][2] == p) and p not in ci_args and a[i][0] in ("attr", "const")]
+        odd = [(p, show(a[i])) for i, p in enumerate(h.params) if i < len(a) and not (a[i][0] == "attr" and a[i][2] == p) and (p, show(a[i])) not in bad and p not in ci_args]
         if bad:
-            chk.violation(rule, f.where(), "gen_rnd_board receives %s" % bad, expected="the parsed argument of the same name", found=str(bad), construct="main gen_rnd_board arguments")
+            chk.violation(rule, f.where(), "gen_rnd_board receives %s" % bad, expected="the value that check_input judged, under the same name", found=str(bad), construct="main gen_rnd_board arguments")
+        elif odd:
+            chk.undecided(rule, f.where(), "gen_rnd_board receives %s: not recognised as the parsed argument" % odd)
         else:
             chk.ok(rule, f.where(), "gen_rnd_board(%s) receives the validated values under their own names" % ", ".join(h.params[:len(a)]))
     # open(..., 'w') only in write_robots
@@ -270,6 +338,47 @@ def r3_reproducible(ctx, chk, rule="C15.3"):
     for c in ast.walk(m.tree):
         if isinstance(c, ast.Call) and call_name(c) in ("random.SystemRandom", "random.Random"):
             chk.violation(rule, GEN, "`%s`: a separate generator is not covered by random.seed(seed)" % src(c), expected="module-level generator", found=src(c), construct="generator separate Random")
+
+
+def r3c_no_generator_state(ctx, chk, rule="C15.3"):
+    """The board is a function of its parameters: the board construction writes no module-level state (a cache of the last
+    layer, a counter): with such state the position in the random stream - hence the board - depends on earlier calls."""
+    f = ctx.func(GEN + "::gen_rnd_board")
+    scope = ctx.cg.reachable([f])
+    n = 0
+    for g in scope:
+        mod_names = set(g.mod.consts)
+        declared = set()
+        for x in walk_no_nested_defs(g.node):
+            if isinstance(x, (ast.Global, ast.Nonlocal)):
+                declared.update(x.names)
+        local_names = set(g.params) | {x.id for x in walk_no_nested_defs(g.node) if isinstance(x, ast.Name) and isinstance(x.ctx, ast.Store) and x.id not in declared}
+        for x in walk_no_nested_defs(g.node):
+            if isinstance(x, ast.Name) and isinstance(x.ctx, ast.Store) and x.id in declared:
+                n += 1
+                chk.violation(rule, g.where(x), "`%s` assigns the module-level name `%s` while a board is generated: what the next call draws depends on this call "
+                              "(same seed and parameters, different board)" % (norm_stmt(ctx.cfg(g).stmt_of(x)), x.id), expected="no state kept between calls of gen_rnd_board",
+                              found=norm_stmt(ctx.cfg(g).stmt_of(x)), construct="%s writes global %s" % (g.short, x.id))
+            tgt = None
+            if isinstance(x, ast.Call) and isinstance(x.func, ast.Attribute) and x.func.attr in _MUTATORS:
+                tgt = x.func.value
+            elif isinstance(x, ast.Subscript) and isinstance(x.ctx, (ast.Store, ast.Del)):
+                tgt = x.value
+            if tgt is not None:
+                base = tgt
+                while isinstance(base, (ast.Attribute, ast.Subscript)):
+                    base = base.value
+                if isinstance(base, ast.Name) and base.id not in local_names and base.id in mod_names:
+                    n += 1
+                    chk.violation(rule, g.where(x), "`%s` modifies the module-level object `%s` while a board is generated" % (norm_stmt(ctx.cfg(g).stmt_of(x)), base.id),
+                                  expected="no state kept between calls of gen_rnd_board", found=norm_stmt(ctx.cfg(g).stmt_of(x)), construct="%s mutates %s" % (g.short, base.id))
+        for d in g.node.decorator_list:
+            if "cache" in src(d):
+                n += 1
+                chk.violation(rule, g.where(), "%s is memoised (`@%s`) although it draws from the random stream: a repeated call skips its draws" % (g.short, src(d)),
+                              expected="no memoisation of functions that draw", found=src(d), construct="%s memoised" % g.short)
+    if not n:
+        chk.ok(rule, f.where(), "the board construction (%d functions) writes no module-level state and is not memoised" % len(scope))
 
 
 def r3b_no_hash_order(ctx, chk, rule="C15.3"):
@@ -564,6 +673,7 @@ def run(ctx, chk):
     r2_order(ctx, chk)
     r3_reproducible(ctx, chk)
     r3b_no_hash_order(ctx, chk)
+    r3c_no_generator_state(ctx, chk)
     r45_shape_values(ctx, chk)
     C08.argument_swap_rule(ctx, chk, "C15.2:swap")
     chk.require_instances("C15.1", 9)
